@@ -433,6 +433,7 @@ def c04_jobs(tier):
     for (recs, nm, ds, mw) in shapes:
         jobs.append(_fa("VerifC04_Fasta", recs, nm, ds, mw))
     jobs.append(_fa("VerifC04_Fasta", [18], 1, 0, 3))
+    jobs.append(_fa("VerifC04_Fasta", [16], 1, 0, 2))  # a physical line that exactly fills the 16-byte buffer
     for bt in ((3, 6) if tier == "quick" else (3, 4, 5, 6, 12)):
         jobs.append({"pkgdir": "io/featio/bed", "func": "VerifC04_Bed", "params": {"bedtype": bt, "records": 2}})
     jobs.append({"pkgdir": "io/featio/gff", "func": "VerifC04_Gff", "params": {"records": 2}})
